@@ -88,11 +88,13 @@ func (l *List) Get(key []byte) (kv.Entry, error) {
 	return nil, kv.ErrNotFound
 }
 
+// ScanPrefix merges the entries of all memtables. Deleted entries are included:
+// the caller merges the result with older data and must drop them afterwards.
 func (l *List) ScanPrefix(prefix []byte, errOut *error) iter.Seq[kv.Entry] {
 	tables := l.tablesSnap()
 	iters := make([]iter.Seq[kv.Entry], len(tables))
 	for i, table := range tables {
-		iters[i] = table.ScanPrefix(prefix)
+		iters[i] = table.scanPrefixWithDeletes(prefix)
 	}
 	return kv.MergeEntries(iters)
 }
